@@ -1,94 +1,74 @@
-(* C09, binary64 level: the quota countOffspring computes is never negative when no member's
-   expected offspring is negative (uses the specification of primitive floats,
-   Coq.Floats.FloatAxioms, for <, <=, abs and the int -> float conversion). *)
+(* C09, binary64 level: the quota countOffspring computes is never negative when every member's
+   expected offspring is a finite number in [0, 2^52) (through Flocq: QuotaFloatSumA.v).
+   The conversion int(math.Floor(x)) of the implementation is modelled as on amd64 (F64.f_trunc_Z,
+   platform assumption "amd64-cvttsd2sq"): for NaN, an infinity and every finite value from 2^63 on it
+   yields math.MinInt64, so "not below zero" (which admits NaN and +Inf) does NOT suffice:
+   [count_offspring_nan_negative] below.  Below 2^52 Floor, Mod(.,1) and the conversion are exact and
+   the carried fraction stays in [0,1), so every int(..) added is >= 0. *)
+From Coq Require Import ZArith Reals Lra Lia Bool List.
+From Flocq Require Import Core BinarySingleNaN.
+From Coq Require Import Floats.
+From NeatModel Require Import ActFloatBase.
 From NeatModel Require Import Res F64 GoRand Genome Options Population QuotaReal QuotaSpec.
-From Coq Require Import Lia Floats.
-From Coq Require Uint63.
+From NeatModel Require Import EpochTotalFloat QuotaFloatSumA.
+Import ListNotations.
+Open Scope Z_scope.
 
-(* not a negative finite number (zeros, infinities and NaN truncate to 0 in f_trunc_Z) *)
-Definition sf_nonneg (x : spec_float) : Prop := match x with S754_finite true _ _ => False | _ => True end.
+(* an ExpectedOffspring value the chain converts faithfully: finite and 0 <= e < 2^52
+   (as float comparisons; -0 is admitted, NaN and the infinities are not) *)
+Definition exp_conv (e : float) : Prop :=
+  PrimFloat.leb 0%float e = true /\ PrimFloat.ltb e 0x1p+52%float = true.
 
-Lemma f_trunc_Z_nonneg x : sf_nonneg (Prim2SF x) -> 0 <= f_trunc_Z x.
+Lemma exp_conv_ok e : exp_conv e -> exp_ok e.
+Proof. intros [H0 H1]. now apply exp_ok_of_cmp. Qed.
+
+Lemma fin_zero_skim : fin 0%float /\ (0 <= FR 0%float < 1)%R.
+Proof. split; [exact fin_zero|]. rewrite FR_zero. lra. Qed.
+
+(* int(math.Floor(x)) for a finite 0 <= x < 2^52 *)
+Lemma floorZ_nonneg x : exp_conv x -> 0 <= f_trunc_Z (ffloor x).
 Proof.
-  unfold f_trunc_Z. destruct (Prim2SF x) as [s|s| |s m e]; cbn; try lia.
-  destruct s; [contradiction|]. intros _.
-  destruct (Z.leb 0 e); [apply Z.shiftl_nonneg|apply Z.shiftr_nonneg]; lia.
+  intros H. destruct (exp_conv_ok x H) as [F R]. rewrite (trunc_ffloor x F R). apply Zfloor_lub. apply R.
 Qed.
 
-Lemma binary_round_aux_nonneg mx ex lx : sf_nonneg (binary_round_aux prec emax false mx ex lx).
-Proof.
-  unfold binary_round_aux. destruct (shr_fexp prec emax mx ex lx) as [m1 e1].
-  destruct (shr_fexp prec emax _ e1 loc_Exact) as [m2 e2].
-  destruct (shr_m m2); [exact I| |exact I]. destruct (Zle_bool e2 (emax - prec)); exact I.
-Qed.
-
-Lemma binary_normalize_nonneg m e : 0 <= m -> sf_nonneg (binary_normalize prec emax m e false).
-Proof.
-  intros H. destruct m as [|p|p]; [exact I| |lia]. cbn [binary_normalize]. unfold binary_round.
-  destruct (shl_align p e _) as [mz ez]. apply binary_round_aux_nonneg.
-Qed.
-
-Lemma f_of_Z_nonneg z : 0 <= z -> sf_nonneg (Prim2SF (f_of_Z z)).
-Proof.
-  intros H. destruct z as [|p|p]; [|cbn [f_of_Z]|lia].
-  - vm_compute. exact I.
-  - rewrite of_uint63_spec. apply binary_normalize_nonneg. pose proof (Uint63.to_Z_bounded (Uint63.of_Z (Z.pos p))). lia.
-Qed.
-
-Lemma not_lt0_nonneg x : PrimFloat.ltb x 0%float = false -> sf_nonneg (Prim2SF x).
-Proof.
-  rewrite ltb_spec. replace (Prim2SF 0%float) with (S754_zero false) by (vm_compute; reflexivity).
-  destruct (Prim2SF x) as [s|s| |s m e]; cbn; auto. destruct s; [discriminate|auto].
-Qed.
-
-Lemma ge1_not_lt0 x : PrimFloat.leb 1%float x = true -> PrimFloat.ltb x 0%float = false.
-Proof.
-  rewrite leb_spec, ltb_spec. replace (Prim2SF 0%float) with (S754_zero false) by (vm_compute; reflexivity).
-  replace (Prim2SF 1%float) with (S754_finite false 4503599627370496 (-52)) by (vm_compute; reflexivity).
-  destruct (Prim2SF x) as [s|s| |s m e]; cbn; auto; destruct s; cbn; auto; discriminate.
-Qed.
-
-(* int(math.Floor(x)) for x not below zero *)
-Lemma floorZ_nonneg x : PrimFloat.ltb x 0%float = false -> 0 <= f_trunc_Z (ffloor x).
-Proof.
-  intros H. pose proof (not_lt0_nonneg x H) as Hs. unfold ffloor.
-  destruct (PrimFloat.leb two52 (PrimFloat.abs x)); [now apply f_trunc_Z_nonneg|].
-  destruct (Prim2SF x) as [s|s| |s m e] eqn:E; try (apply f_trunc_Z_nonneg; rewrite E; exact I).
-  destruct s; [contradiction|].
-  assert (Hz : 0 <= f_floor_Z x).
-  { unfold f_floor_Z. rewrite E. destruct (Z.leb 0 e); [apply Z.shiftl_nonneg; lia|apply Z.shiftr_nonneg; lia]. }
-  destruct (Z.eqb (f_floor_Z x) 0).
-  - rewrite H. vm_compute. discriminate.
-  - apply f_trunc_Z_nonneg. now apply f_of_Z_nonneg.
-Qed.
-
+(* countOffspring over members with such values, entered with a carried fraction in [0,1): the count
+   only grows and the fraction carried out is again in [0,1) *)
 Lemma count_offspring_gen_nonneg : forall exps expected skim,
-  Forall (fun e => PrimFloat.ltb e 0%float = false) exps -> 0 <= expected ->
+  Forall exp_conv exps -> fin skim -> (0 <= FR skim < 1)%R -> 0 <= expected ->
   0 <= fst (count_offspring_gen float_qnum exps expected skim).
 Proof.
-  induction exps as [|e l IH]; intros expected skim Hf He; [exact He|].
-  inversion Hf as [|? ? H1 H2]; subst. cbn [count_offspring_gen].
-  pose proof (floorZ_nonneg e H1) as F1. cbn [q_floorZ q_ge1 q_add q_frac q_sub q_floor float_qnum].
-  destruct (PrimFloat.leb 1%float (PrimFloat.add skim (fmod1 e))) eqn:G.
-  - apply IH; [assumption|]. pose proof (floorZ_nonneg _ (ge1_not_lt0 _ G)). lia.
-  - apply IH; [assumption|lia].
+  intros exps expected skim Hf Fs Hs He.
+  destruct (count_offspring_gen float_qnum exps expected skim) as [e' skim'] eqn:E. cbn [fst].
+  assert (Hok : Forall exp_ok exps) by (eapply Forall_impl; [|exact Hf]; exact exp_conv_ok).
+  pose proof (count_gen_lower _ _ _ _ _ Hok Fs Hs E). lia.
 Qed.
 
-(* the quotas of the chain are not negative when no organism's expected offspring is *)
-Lemma count_all_nonneg h : forall l skim total l2 t,
-  count_all h l skim total = Ok (l2, t) ->
-  (forall s k x, In s l -> In k (sp_orgs s) -> hget h k = Ok x -> PrimFloat.ltb (o_exp x) 0%float = false) ->
+(* the quotas of the chain are not negative when every organism's expected offspring is convertible *)
+Lemma count_all_nonneg_from h : forall l skim total l2 t,
+  count_all h l skim total = Ok (l2, t) -> fin skim -> (0 <= FR skim < 1)%R ->
+  (forall s k x, In s l -> In k (sp_orgs s) -> hget h k = Ok x -> exp_conv (o_exp x)) ->
   forall s, In s l2 -> 0 <= sp_exp s.
 Proof.
-  induction l as [|s0 l IH]; intros skim total l2 t H Hnn s Hs.
-  - cbn in H. injection H as <- <-. destruct Hs.
+  induction l as [|s0 l IH]; intros skim total l2 t H Fs Hs Hnn s Hin.
+  - cbn in H. injection H as <- <-. destruct Hin.
   - apply count_all_cons_ok in H. destruct H as [orgs [e [skim' [l3 [H1 [H2 [H3 ->]]]]]]].
-    destruct Hs as [<-|Hs].
-    + cbn [sp_exp sp_with_exp]. unfold count_offspring in H2.
-      pose proof (count_offspring_gen_nonneg (map o_exp orgs) 0 skim) as P. rewrite H2 in P. apply P; [|lia].
-      apply Forall_forall. intros f Hf. apply in_map_iff in Hf. destruct Hf as [x [<- Hx]].
-      destruct (hgets_In _ _ _ H1 _ Hx) as [A B]. exact (Hnn s0 _ x (or_introl eq_refl) A B).
-    + apply (IH _ _ _ _ H3); [|exact Hs]. intros s1 k x Hs1. apply Hnn. now right.
+    unfold count_offspring in H2.
+    assert (Hf : Forall exp_conv (map o_exp orgs)).
+    { apply Forall_forall. intros f Hf. apply in_map_iff in Hf. destruct Hf as [x [<- Hx]].
+      destruct (hgets_In _ _ _ H1 _ Hx) as [A B]. exact (Hnn s0 _ x (or_introl eq_refl) A B). }
+    assert (Hok : Forall exp_ok (map o_exp orgs)) by (eapply Forall_impl; [|exact Hf]; exact exp_conv_ok).
+    destruct Hin as [<-|Hin].
+    + cbn [sp_exp sp_with_exp]. pose proof (count_gen_lower _ _ _ _ _ Hok Fs Hs H2). lia.
+    + destruct (count_gen_bound _ _ _ _ _ Hok Fs Hs H2) as (Fs' & Hs' & _).
+      apply (IH _ _ _ _ H3 Fs' Hs'); [|exact Hin]. intros s1 k x Hs1. apply Hnn. now right.
+Qed.
+
+Lemma count_all_nonneg h : forall l total l2 t,
+  count_all h l 0%float total = Ok (l2, t) ->
+  (forall s k x, In s l -> In k (sp_orgs s) -> hget h k = Ok x -> exp_conv (o_exp x)) ->
+  forall s, In s l2 -> 0 <= sp_exp s.
+Proof.
+  intros l total l2 t H. destruct fin_zero_skim as [F0 R0]. exact (count_all_nonneg_from h l _ _ _ _ H F0 R0).
 Qed.
 
 (* total_robust with the hypothesis stated on the organisms' expected offspring *)
@@ -98,7 +78,7 @@ Lemma total_robust_float : forall p p' orgs sps T,
   count_all (p_heap p') (p_species p) 0%float 0 = Ok (sps, T) ->
   p_species p <> [] -> NoDup (map sp_id (p_species p)) ->
   (forall s k x, In s (p_species p) -> In k (sp_orgs s) -> hget (p_heap p') k = Ok x ->
-                 PrimFloat.ltb (o_exp x) 0%float = false) ->
+                 PrimFloat.leb 0%float (o_exp x) = true /\ PrimFloat.ltb (o_exp x) 0x1p+52%float = true) ->
   (T <= zlen orgs -> sp_sum (p_species p') = zlen orgs) /\
   (zlen orgs < T -> sp_sum (p_species p') = T) /\
   (forall s, In s (p_species p') -> 0 < sp_exp s) /\
@@ -106,5 +86,14 @@ Lemma total_robust_float : forall p p' orgs sps T,
 Proof.
   intros p p' orgs sps T Hp Ho Hc Hne Hnd Hnn.
   apply (total_robust_sum p p' orgs sps T Hp Ho Hc Hne Hnd).
-  exact (count_all_nonneg _ _ _ _ _ _ Hc Hnn).
+  exact (count_all_nonneg _ _ _ _ _ Hc Hnn).
 Qed.
+
+(* "not below zero" does not suffice: one member whose expected offspring is NaN (or +Inf, or 2^63)
+   makes the quota math.MinInt64 *)
+Lemma count_offspring_nan_negative :
+  PrimFloat.ltb PrimFloat.nan 0%float = false /\ PrimFloat.ltb infinity 0%float = false /\
+  fst (count_offspring_gen float_qnum [PrimFloat.nan] 0 0%float) = int64_indefinite /\
+  fst (count_offspring_gen float_qnum [infinity] 0 0%float) = int64_indefinite /\
+  fst (count_offspring_gen float_qnum [0x1p+63%float] 0 0%float) = int64_indefinite.
+Proof. repeat split; vm_compute; reflexivity. Qed.
